@@ -136,6 +136,14 @@ Router::~Router()
         delete obstaclePtr;
         obstacle = m_obstacles.begin();
     }
+
+    // Delete remaining clusters (they are owned by the router).
+    while (!clusterRefs.empty())
+    {
+        ClusterRef *clusterPtr = clusterRefs.front();
+        clusterPtr->makeInactive();
+        delete clusterPtr;
+    }
     m_currently_calling_destructors = false;
 
     // Cleanup orphaned orthogonal graph vertices.
@@ -805,6 +813,10 @@ void Router::deleteCluster(ClusterRef *cluster)
     unsigned int pid = cluster->id();
     
     adjustClustersWithDel(pid);
+
+    m_currently_calling_destructors = true;
+    delete cluster;
+    m_currently_calling_destructors = false;
 }
 
 
